@@ -120,7 +120,14 @@ static void sec_meta(Ctx& c, uint64_t) {
   bool unique = M.judged;
   if (!m0.finite) { if (unique) c.viol(key("non-finite-result"), cls, wit()); else c.event("meta: non-finite result on a polygon with a non-unique / pole-to-pole edge (not judged)"); return; }
   // errors of half the ellipsoid area on polygons with an edge between exactly opposite meridians get their own key
-  auto half = [&](double err, const char* w, bool extratie = false) { std::string kk = key(w); if (M.nrheq) kk += "/prolate-exact-rhumb-near-equator-edge"; if ((M.ntie || extratie) && std::fabs(err - 0.5 * A0) <= 1e-6 * A0) kk += "/off-by-half-ellipsoid-area/edge-between-opposite-meridians"; return kk; };
+  // polygons containing an edge with the signature of a known root cause (rhumb exact prolate near the equator, C09; strongly prolate nearly
+  // equatorial geodesic inverse, C02) report under ONE key per root cause; errors of half the ellipsoid area on polygons with an edge between
+  // exactly opposite meridians get their own suffix
+  bool extra_rheq = false, extra_preq = false;
+  auto half = [&](double err, const char* w, bool extratie = false) { std::string kk = key(w);
+    if (M.nrheq || extra_rheq) return key("relation/prolate-exact-rhumb-near-equator-edge");
+    if (M.npreq || extra_preq) return key("relation/strongly-prolate-near-equatorial-inverse-edge");
+    if ((M.ntie || extratie) && std::fabs(err - 0.5 * A0) <= 1e-6 * A0) kk += "/off-by-half-ellipsoid-area/edge-between-opposite-meridians"; return kk; };
   double tolA = env.K * (double)M.tolA, tolP = env.K * (double)M.tolP;
   auto circ = [&](double x, double y) { return (double)circ_dist(x, y, A0); };
 
@@ -173,6 +180,7 @@ static void sec_meta(Ctx& c, uint64_t) {
     if (j - i >= 2 && !(i == 0 && j == n - 1)) {
       EdgeOut d = rhumb ? rhumb_edge_between(env, c, V[i], V[j]) : geod_edge_between(env, c, V[i], V[j], false, 0);
       if (d.st == E_OK) {
+        extra_rheq = d.rheq; extra_preq = d.preq;
         std::vector<RV> P1(V.begin() + i, V.begin() + j + 1), P2(V.begin() + j, V.end()); P2.insert(P2.end(), V.begin(), V.begin() + i + 1);
         Meas m1 = measure(env, P1), m2 = measure(env, P2);
         double td = env.K * env.tol_pos * (double)d.lenscale;
